@@ -3,6 +3,7 @@ import json
 import os
 import random as pyrandom
 
+import ref_tr31
 from core import Case, call_impl, psec
 from props.tr31util import VERS, rb, rs, rand_blocks, make_header, wrap_case, tr31
 from props.cardutil import digits
@@ -222,7 +223,7 @@ def statistical_case(rng, tier):
     for b, k in enumerate(bits):
         if abs(k - N / 2) > Z * sdb:
             c.fail(f"format 4 random byte bit {b} set {k} times in {N} draws")
-    # TR-31 key padding: recover the clear pad through the implementation's own decryption (version A/C: CBC decrypt with KBEK)
+    # TR-31 key padding: recover the clear pad by an independent derivation and decryption (harness/ref_tr31.py)
     for ver in "ABCD":
         bs, ksizes, ml = VERS[ver]
         kbpk, key = rb(rng, ksizes[0]), rb(rng, 6)
@@ -231,18 +232,7 @@ def statistical_case(rng, tier):
         bitc = None
         for _ in range(N if tier == "thorough" or ver in "BD" else N // 2):
             s = kbo.wrap(key, 8)
-            hl = 16
-            enc = bytes.fromhex(s[hl:len(s) - 2 * ml])
-            mac = bytes.fromhex(s[len(s) - 2 * ml:])
-            if ver == "B":
-                kbek, _ = kbo._b_derive()
-                clear = psec.des.decrypt_tdes_cbc(kbek, mac, enc)
-            elif ver == "D":
-                kbek, _ = kbo._d_derive()
-                clear = psec.aes.decrypt_aes_cbc(kbek, mac, enc)
-            else:
-                kbek, _ = kbo._c_derive()
-                clear = psec.des.decrypt_tdes_cbc(kbek, s[:8].encode(), enc)
+            clear = ref_tr31.clear_key_data(ver, kbpk, s, 16, ml)   # independent derivation and decryption (cryptography only)
             pad = clear[2 + len(key):]
             if bitc is None:
                 npad = len(pad)
